@@ -192,6 +192,7 @@ func (E *explorer) runOne(prefix []int32, useCache bool) *Exec {
 	return E.runOneS(prefix, useCache, nil)
 }
 
+//go:norace
 func (E *explorer) runOneS(prefix []int32, useCache bool, sleepInit []transID) *Exec {
 	h := E.h
 	e := &Exec{prefix: prefix, clock: epoch, cacheCut: -1, traceOn: traceNext}
@@ -695,10 +696,21 @@ func Replay(h *Harness, cfg map[string]string, choices []int32) (fails []Failure
 
 var traceNext bool
 
+// sigsOf is the set of failure signatures of an execution (order and multiplicity ignored: Check
+// functions may iterate over maps).
 func sigsOf(fs []Failure) string {
-	var sb strings.Builder
+	var l []string
 	for _, f := range fs {
-		sb.WriteString(f.Clause + "|" + f.Sig + ";")
+		l = append(l, f.Clause+"|"+f.Sig)
+	}
+	sort.Strings(l)
+	var sb strings.Builder
+	prev := ""
+	for _, x := range l {
+		if x != prev {
+			sb.WriteString(x + ";")
+		}
+		prev = x
 	}
 	return sb.String()
 }
